@@ -20,3 +20,4 @@ def run(ck):
     status.r19_14_direct_fill_passes_the_image_bounds(ck, P)
     geometry.r_coordinate_split_floors(ck, P, 'C19-R15')
     status.r_box32_coordinates_not_narrowed(ck, P)
+    status.r_rectangles_taken_after_the_last_intersection(ck, P, 'C19-R17')
